@@ -29,7 +29,10 @@ Mod(e, i) ==
         THEN Report(i, "MISMATCH", "lazy-initialisation import is not LazyLock / lazy_static as no_std_compliant_bindings says")
     ELSE IF e.super_obs # O!Super(c, e.super_base)
         THEN Report(i, "MISMATCH", "import lists: not the listed names (wildcard exactly with default_wildcard_imports)")
-    ELSE IF e.other_obs # O!Other(c, e.other_base) THEN Report(i, "MISMATCH", "additional use lines are not exactly the custom imports")
+    \* (the symbol-suffixed custom imports are made from e.syms, which must hold every name this module's import lists name)
+    ELSE IF c.imports = 9 /\ \E k \in DOMAIN e.super_base : \E n \in DOMAIN e.super_base[k].list : e.super_base[k].list[n] \notin ToSet(e.syms)
+        THEN Report(i, "MISMATCH", "harness: the custom imports do not cover the imported symbols")
+    ELSE IF e.other_obs # O!Other(c, e.other_base, e.syms) THEN Report(i, "MISMATCH", "additional use lines are not exactly the custom imports")
     ELSE IF ~e.order_same \/ e.missing # <<>> THEN Report(i, "MISMATCH", "an item is missing or items are reordered under the configuration")
     ELSE IF e.extra # <<>> /\ ~O!ExtrasAllowed(c) THEN Report(i, "MISMATCH", "additional items that no enabled option documents")
     ELSE IF e.n_body_diffs # 0 THEN Report(i, "MISMATCH", "a type definition (fields, tags, constraints, identifiers) differs between configurations")
